@@ -130,6 +130,12 @@ func applyMuts(p pset, muts []string) pset {
 			if !q[i].N.Bin && j < len(q[i].N.Path) {
 				q[i].N.Path = flipBit(q[i].N.Path, j)
 			}
+		case "setedge":
+			bits := f[2]
+			if bits == "-" {
+				bits = ""
+			}
+			q[i].N = wnode{Path: bits, C: child{false, f[3]}}
 		case "copy":
 			j, _ := strconv.Atoi(f[2])
 			if j < len(p) {
@@ -177,7 +183,7 @@ func childMain() {
 }
 
 func inChild(rc rangeCase, impl string) string {
-	ctx, cancel := context.WithTimeout(context.Background(), 6*time.Second)
+	ctx, cancel := context.WithTimeout(context.Background(), 4*time.Second)
 	defer cancel()
 	cmd := exec.CommandContext(ctx, os.Args[0])
 	cmd.Env = append(os.Environ(), "C10_CHILD=1")
@@ -197,6 +203,7 @@ func inChild(rc rangeCase, impl string) string {
 }
 
 var cyclicRuns int
+var cyclicMax = 1
 
 func cycleProne(rc rangeCase) bool {
 	for _, m := range rc.Muts {
@@ -284,7 +291,7 @@ func (rc rangeCase) proofKeys() []string {
 }
 
 // models available so far
-var rangeModels = map[string]bool{"2": true, "1": false}
+var rangeModels = map[string]bool{"2": true, "1": true}
 
 // runRange evaluates one case on both implementations; returns the outcomes
 func runRange(c *hx.Ctx, or *hx.Oracle, rc rangeCase, verbose bool) {
@@ -298,7 +305,7 @@ func runRange(c *hx.Ctx, or *hx.Oracle, rc rangeCase, verbose bool) {
 	pk := rc.proofKeys()
 	var g2, g1 string
 	if cycleProne(rc) && !verbose {
-		if cyclicRuns >= 3 {
+		if cyclicRuns >= cyclicMax {
 			return // child processes are slow; a few per run are enough
 		}
 		cyclicRuns++
@@ -452,6 +459,14 @@ func evalRanges(c *hx.Ctx, or *hx.Oracle, r *hx.RNG, tc trieCase) {
 			e := mk("empty-range-with-followers", m.Text(16), nil)
 			e.Tamper = "empty-claim-but-entries-follow"
 			cases = append(cases, e)
+			// ... and the root node replaced (under the root's hash) by an edge that diverges below
+			// the key: the followers are hidden; only recomputing the hashes can tell
+			if m.Sign() > 0 {
+				f := mk("empty-range-with-followers", m.Text(16), nil)
+				f.Tamper = "empty-claim-root-node-replaced"
+				f.Muts = []string{"setedge:0:" + strings.Repeat("0", 251) + ":1"}
+				cases = append(cases, f)
+			}
 		}
 	}
 	// altered claims / proofs derived from the honest cases with >= 1 element
@@ -511,6 +526,30 @@ func evalRanges(c *hx.Ctx, or *hx.Oracle, r *hx.RNG, tc trieCase) {
 			y.Keys = x.Keys
 			y.Values = append(append(append([]string{}, h.Values[:p+1]...), incHex(h.Values[p])), h.Values[p+1:]...)
 			alts = append(alts, y)
+		}
+		if h.Shape == "single" {
+			// the value changed in the claim AND in the proof node holding it (the node stays stored
+			// under its honest hash): only recomputing the hashes can tell
+			b, err := buildTries(h.Trie)
+			if err == nil {
+				kf := hexF(h.Keys[0])
+				p2 := trie2.NewProofNodeSet()
+				b.t2.Prove(&kf, p2)
+				if sz := p2.Size(); sz > 0 {
+					s2, _ := fromTrie2(p2)
+					side := "c"
+					if s2[sz-1].N.Bin {
+						side = "l"
+						if kf.BigInt(new(big.Int)).Bit(0) == 1 {
+							side = "r"
+						}
+					}
+					x := cp("single-element-value-forged-also-in-proof-node")
+					x.Values[0] = incHex(h.Values[0])
+					x.Muts = []string{fmt.Sprintf("child:%d:%s:%s", sz-1, side, x.Values[0])}
+					alts = append(alts, x)
+				}
+			}
 		}
 		if len(h.ProofKeys) == 0 {
 			// altered boundary proof: the set has at least one node
